@@ -303,4 +303,109 @@ Proof.
   unfold strip in *. cbn [filter]. destruct (negb (is_ws t)); [f_equal|]; exact S'.
 Qed.
 
+(* trivia in front of the first token of a file *)
+Theorem trivia_at_start x s spans :
+  Trivia x -> lex_file s = SOk spans ->
+  exists spans', lex_file (x ++ s) = SOk spans' /\ strip (toks spans') = strip (toks spans).
+Proof.
+  intros Tx H. unfold Lexer.lex_file in *.
+  destruct (lex_all_sound _ _ _ _ _ _ _ _ _ _ _ _ _ H) as (l & E & L). cbn [rev toks map app] in E.
+  destruct (trivia_lexes x Tx s true) as (ws & l1 & Fw & Hx).
+  destruct (lexes_flag keywords reserved_words symbols int_suffixes float_suffixes float_is_zero utf8_ok s true l L l1) as (l' & L' & S').
+  specialize (Hx l' L').
+  destruct (lex_all_complete _ _ _ _ _ _ _ _ _ _ Hx (S (slen (x ++ s))) 0 [] ltac:(lia)) as (sp & E' & M').
+  exists sp. split; [exact E'|]. cbn [rev toks map app] in M'. rewrite M', E.
+  rewrite strip_ws by exact Fw. exact S'.
+Qed.
+
 End Trivia2.
+
+(* ---- any token boundary behind a prefix of blank-separated tokens ----
+   A prefix is "spaced" when it is a run of solid tokens each followed by one blank.  Such a token reads the same
+   whatever comes after its blank (solid_token_ignores_what_follows), so the prefix lexes to the same tokens in front
+   of every continuation, and a trivia insertion behind it is an insertion at the start of the rest. *)
+Section Spaced.
+Variable keywords : list (string * string).
+Variable reserved_words : list string.
+Variable symbols : list (N * string * option string * option string).
+Variable int_suffixes : list (list (list N) * string).
+Variable float_suffixes : list (list N * string).
+Variable float_is_zero : string -> bool.
+Variable utf8_ok : string -> bool.
+
+Notation tok_at := (tok_at keywords reserved_words symbols int_suffixes float_suffixes float_is_zero utf8_ok).
+Notation Lexes := (Lexes keywords reserved_words symbols int_suffixes float_suffixes float_is_zero utf8_ok).
+Notation lex_file := (lex_file keywords reserved_words symbols int_suffixes float_suffixes float_is_zero utf8_ok).
+
+(* the text of the prefix and the tokens it stands for (the blanks between them left out) *)
+Inductive Spaced : string -> list tok -> Prop :=
+| SpNil : Spaced "" []
+| SpCons c a' w t p ts :
+    tok_at false (String c a' ++ String w "") = LOk t (slen (String c a')) -> solid t = true -> blank w ->
+    Spaced p ts -> Spaced (String c a' ++ String w p) (t :: ts).
+
+Lemma spaced_lexes p ts : Spaced p ts -> forall rest last l0 tr,
+  Lexes rest l0 tr ->
+  exists tp l1 tr', Lexes (p ++ rest) last (tp ++ tr') /\ strip tp = strip ts /\ Lexes rest l1 tr' /\ strip tr' = strip tr.
+Proof.
+  induction 1 as [|c a' w t p ts T St Bw Sp IH]; intros rest last l0 tr Lr.
+  - destruct (lexes_flag keywords reserved_words symbols int_suffixes float_suffixes float_is_zero utf8_ok rest l0 tr Lr last) as (tr' & L' & S').
+    exists [], last, tr'. cbn [append app]. repeat split; assumption.
+  - destruct (solid_first_char keywords reserved_words symbols int_suffixes float_suffixes float_is_zero utf8_ok c (a' ++ String w "") t _ T St) as (F1 & F2 & F3).
+    assert (Fo : follows_ok c w) by (apply blank_follows_ok; assumption).
+    pose proof (solid_token_ignores_what_follows keywords reserved_words symbols int_suffixes float_suffixes float_is_zero utf8_ok c a' (String w "") t w (p ++ rest) T St Fo) as T'.
+    destruct (blank_token keywords reserved_words symbols int_suffixes float_suffixes float_is_zero utf8_ok w (p ++ rest) Bw) as (tw & Tw & Ww).
+    destruct (IH rest (is_endline tw) l0 tr Lr) as (tp & l1 & tr' & Lp & Sp' & Lr' & Sr').
+    exists (t :: tw :: tp), l1, tr'. repeat split.
+    + rewrite sapp_assoc. cbn [append app].
+      change (String c (a' ++ String w (p ++ rest))) with (String c a' ++ String w (p ++ rest)).
+      apply (LexTok _ _ _ _ _ _ _ c (a' ++ String w (p ++ rest)) last t (slen (String c a')) (tw :: tp ++ tr')); [exact T'|].
+      change (String c (a' ++ String w (p ++ rest))) with (String c a' ++ String w (p ++ rest)). rewrite drop_app.
+      apply (LexTok _ _ _ _ _ _ _ w (p ++ rest) (is_endline t) tw 1 (tp ++ tr')); [exact Tw|]. cbn [drop]. exact Lp.
+    + unfold strip in *. cbn [filter]. rewrite Ww. cbn [negb]. destruct (negb (is_ws t)); [f_equal|]; exact Sp'.
+    + exact Lr'.
+    + exact Sr'.
+Qed.
+
+Lemma spaced_lexes_inv p ts : Spaced p ts -> forall rest last l,
+  Lexes (p ++ rest) last l ->
+  exists tp l1 tr, l = (tp ++ tr)%list /\ strip tp = strip ts /\ Lexes rest l1 tr.
+Proof.
+  induction 1 as [|c a' w t p ts T St Bw Sp IH]; intros rest last l L.
+  - exists [], last, l. cbn [append app] in *. repeat split. exact L.
+  - destruct (solid_first_char keywords reserved_words symbols int_suffixes float_suffixes float_is_zero utf8_ok c (a' ++ String w "") t _ T St) as (F1 & F2 & F3).
+    assert (Fo : follows_ok c w) by (apply blank_follows_ok; assumption).
+    pose proof (solid_token_ignores_what_follows keywords reserved_words symbols int_suffixes float_suffixes float_is_zero utf8_ok c a' (String w "") t w (p ++ rest) T St Fo) as T'.
+    destruct (blank_token keywords reserved_words symbols int_suffixes float_suffixes float_is_zero utf8_ok w (p ++ rest) Bw) as (tw & Tw & Ww).
+    rewrite sapp_assoc in L. cbn [append] in L.
+    inversion L as [|c0 r0 last0 t0 n0 ts0 T0 L0]; subst.
+    change (String c (a' ++ String w (p ++ rest))) with (String c a' ++ String w (p ++ rest)) in *.
+    rewrite T' in T0. inversion T0; subst t0 n0. change (S (slen a')) with (slen (String c a')) in L0. rewrite drop_app in L0.
+    inversion L0 as [|c1 r1 last1 t1 n1 ts1 T1 L1]; subst.
+    rewrite Tw in T1. inversion T1; subst t1 n1. cbn [drop] in L1.
+    destruct (IH rest (is_endline tw) ts1 L1) as (tp & l1 & tr & -> & Sp' & Lr).
+    exists (t :: tw :: tp), l1, tr. repeat split; [|exact Lr].
+    unfold strip in *. cbn [filter]. rewrite Ww. cbn [negb]. destruct (negb (is_ws t)); [f_equal|]; exact Sp'.
+Qed.
+
+(* trivia inserted after a solid token that stands behind a spaced prefix *)
+Theorem trivia_after_token_behind_spaced_prefix p tp c a' b t x spans :
+  Spaced p tp ->
+  tok_at false (String c a' ++ b) = LOk t (slen (String c a')) -> solid t = true -> Ascii.eqb c "/" = false -> Trivia x ->
+  lex_file (p ++ String c a' ++ b) = SOk spans ->
+  exists spans', lex_file (p ++ String c a' ++ x ++ b) = SOk spans' /\ strip (toks spans') = strip (toks spans).
+Proof.
+  intros Sp T St Cs Tx H. unfold Lexer.lex_file in *.
+  destruct (lex_all_sound _ _ _ _ _ _ _ _ _ _ _ _ _ H) as (l & E & L). cbn [rev toks map app] in E.
+  destruct (spaced_lexes_inv p tp Sp (String c a' ++ b) true l L) as (tp0 & l1 & tr & -> & S0 & Lr).
+  assert (exists tsr, tr = t :: tsr) as (tsr & ->).
+  { inversion Lr as [|c0 r0 last0 t1 n0 ts1 T0 L0]; subst. change (String c (a' ++ b)) with (String c a' ++ b) in T0.
+    rewrite T in T0. inversion T0; subst. eexists. reflexivity. }
+  destruct (trivia_after_solid_token keywords reserved_words symbols int_suffixes float_suffixes float_is_zero utf8_ok c a' b l1 t tsr x T St Cs Tx Lr) as (ts' & L' & S').
+  destruct (spaced_lexes p tp Sp (String c a' ++ x ++ b) true l1 (t :: ts') L') as (tp1 & l2 & tr' & Lall & S1 & _ & Sr').
+  destruct (lex_all_complete _ _ _ _ _ _ _ _ _ _ Lall (S (slen (p ++ String c a' ++ x ++ b))) 0 [] ltac:(lia)) as (sp & E' & M').
+  exists sp. split; [exact E'|]. cbn [rev toks map app] in M'. rewrite M', E.
+  unfold strip in *. rewrite !filter_app. rewrite S1, S0, Sr'. cbn [filter]. destruct (negb (is_ws t)); [f_equal; f_equal|f_equal]; exact S'.
+Qed.
+
+End Spaced.
